@@ -966,5 +966,8 @@ func runC16(tier string, args []string) {
 	}
 	wg.Wait()
 	collectRaces(run, workDir())
+	if len(args) < 2 {
+		runC16Extra(run)
+	}
 	run.Finish(run.Pick(15, 40))
 }
